@@ -97,6 +97,9 @@ type dialResult struct {
 	done chan struct{}
 	conn *wsConnection
 	err  error
+	// abandoned is set when the dial failed after the dialing caller's own
+	// context had ended; waiters with a live context then dial themselves.
+	abandoned bool
 }
 
 // NewWSTransport creates a new WSTransport. Connections are not closed when ctx
@@ -208,6 +211,17 @@ func (t *WSTransport) getOrDial(ctx context.Context, opts common.Options) (*wsCo
 		}
 
 		if result.err != nil {
+			// The coalesced dial ran on the first caller's context. If it failed
+			// because that caller gave up while this one is still alive, dial again
+			// instead of failing with somebody else's cancellation.
+			if result.abandoned && ctx.Err() == nil {
+				t.mu.Lock()
+				if t.dialing[key] == result {
+					delete(t.dialing, key)
+				}
+				t.mu.Unlock()
+				return t.getOrDial(ctx, opts)
+			}
 			return nil, result.err
 		}
 
@@ -222,10 +236,13 @@ func (t *WSTransport) getOrDial(ctx context.Context, opts common.Options) (*wsCo
 
 	result.conn = conn
 	result.err = err
+	result.abandoned = err != nil && ctx.Err() != nil
 	close(result.done)
 
 	t.mu.Lock()
-	delete(t.dialing, key)
+	if t.dialing[key] == result {
+		delete(t.dialing, key)
+	}
 
 	// A connection that was already shut down (upstream dropped it right after
 	// the handshake) has run its removeConn already; pooling it would leak the entry.
